@@ -8,6 +8,10 @@ CFG = {
         'bmtree.PathToIndexLoose/debug-raw': 'bmtree.PathToIndexLoose on RAW (int32, uint64) arguments, -tags debug build only',
         'bmtree.PathToIndexLoose/child': 'bmtree.PathToIndexLoose on a node and on one of its children (release build)',
         'bmtree.PathToIndexLoose/child/debug': 'bmtree.PathToIndexLoose on a node and on one of its children (-tags debug build)',
+        'bmtree.PathOf+PathToIndexLoose': 'bmtree.PathToIndexLoose(T, bmtree.PathOf(s, from, Height(T))) (release build)',
+        'bmtree.PathOf+PathToIndexLoose/debug': 'the same, -tags debug build',
+        'bmtree.PathOf+PathToIndex': 'bmtree.PathToIndex(T, bmtree.PathOf(s, from, Height(T))) (release build)',
+        'bmtree.PathOf+PathToIndex/debug': 'the same, -tags debug build',
         'bmtree.PathToIndex/debug-raw': 'bmtree.PathToIndex on RAW (int32, uint64) arguments, -tags debug build only'},
  # two harness builds; every case runs on both. In the debug build github.com/openacid/must is active,
  # a contract panic is observed as P and rejected by the specification.
@@ -24,6 +28,9 @@ CFG = {
          'on the contract gap (empty mask half under non-zero search bits) only model = implementation is compared; '
          'WIDENING (ops */child): a node and one child in one case — every T in [2,2^6) x every inner node x both children, random heights 1..30; '
          'the child pair must follow from the parent pair by the child rule (left child: next index; right child: after T>>(|q|+1) nodes); '
+         'WIDENING (ops bmtree.PathOf+PathToIndex*): from a key to its index — every T in [1,16) x every string of <= 2 bytes over {00,80,ff,a5} x every from; '
+         'random heights 0..30, keys of 0..7 bytes over {00,01,7f,80,ff,a,b,a5}, from byte-aligned / unaligned / window ending at the end of the key; '
+         'expected = rank of the node spelled by the key bits from..from+h (cut at the end of the key); '
          'non-trivial = not the root and at least one stored node precedes it; distinct = distinct (op,args,build)',
  'assumptions': ['1 <= bitmapSize < 2^31 (int32, height <= 30)', '|q| <= Height(bitmapSize)',
                  'PathToIndex is only claimed (and only called) for nodes on a stored level',
